@@ -8,6 +8,7 @@ import Mdsort.Spec.Message
 import Mdsort.Spec.Mime
 import Mdsort.Proofs.Mime
 import Mdsort.Model.Eval
+import Mdsort.Spec.HeaderCond
 import Driver.Ast
 import Driver.Wire
 import Driver.Conf
@@ -19,6 +20,7 @@ import Mdsort.Model.Plan
 import Mdsort.Model.Inspect
 import Mdsort.Model.Lex
 import Mdsort.Spec.Rules
+import Mdsort.Proofs.EvalAtt
 import Mdsort.Spec.Interp
 import Mdsort.Proofs.Interp
 import Mdsort.Spec.Flags
@@ -28,6 +30,8 @@ import Mdsort.Spec.Dest
 import Mdsort.Model.Dest
 import Mdsort.Model.L0.Mime
 import Mdsort.Model.L0.Util
+import Mdsort.Model.L0.Buffer
+import Mdsort.Model.Start
 
 /-!
 Line-protocol driver: one request per line `<side> <op> <hexarg>*`, one response
@@ -49,6 +53,18 @@ opaque zoneFFI (name : @& ByteArray) (now : UInt64) : UInt64
 @[extern "mdsort_timegm"]
 opaque timegmFFI (y mo d h mi s : UInt32) : UInt64
 
+/-- `(setlocale(LC_CTYPE, "") succeeded) <<< 8 ||| MB_CUR_MAX` of the driver process (the locale is selected from the
+environment before `main` runs, see ffi.c). -/
+@[extern "mdsort_locale_info"]
+opaque localeInfoFFI (unused : UInt32) : UInt32
+
+/-- `mbtowc` on the bytes from offset `off`: upper half 0 = -1, 1 = NUL, n + 1 = a character of n bytes; lower half the character. -/
+@[extern "mdsort_mbtowc"]
+opaque mbtowcFFI (str : @& ByteArray) (off : UInt64) : UInt64
+
+/-- `wcwidth + 1`. -/
+@[extern "mdsort_wcwidth"]
+opaque wcwidthFFI (wc : UInt32) : UInt32
 @[extern "mdsort_timefmt"]
 opaque timefmtFFI (fmt : @& ByteArray) (tz : @& ByteArray) (t : UInt64) : Array UInt32
 
@@ -164,6 +180,59 @@ def rxOkFFI (p : Model.Pat) : Bool :=
   let r0 : Option UInt32 := r[0]?
   r0 != some 3
 
+/-- The platform's `mbtowc(&wc, s, MB_CUR_MAX)` under the driver's locale, in the form `Model.strnwidth` expects. -/
+def mbtowcEnv (s : Bytes) : Option (Nat × Nat) :=
+  -- a character has at most MB_CUR_MAX (<= 16) bytes: the rest of the value is not needed
+  let r := mbtowcFFI (ba (s.take 16)) 0
+  let n := (r >>> 32).toNat
+  if n == 0 then none else some (n - 1, (r &&& 0xffffffff).toNat)
+
+def wcwidthEnv (wc : Nat) : Int := ((wcwidthFFI wc.toUInt32).toNat : Int) - 1
+
+/-- `strnwidth(str, len)` of expr.c: the model's loop over the platform's `mbtowc`/`wcwidth` (locale of the environment). -/
+def widthEnv : Bytes → Nat → Nat := Model.strnwidth mbtowcEnv wcwidthEnv
+
+def asciiStr (b : Bytes) : String := String.ofList (b.map fun c => Char.ofNat c.toNat)
+
+/-- `inspect <home> <confpath> <key> <val> <lno ascii> <subs ascii: beg/end+beg/end..., x/x for an unset group>`:
+what `expr_inspect` prints for one header entry with these sub-matches. -/
+def handleInspect (args : List Bytes) : String :=
+  match args with
+  | [home, confpath, key, val, lno, subs] =>
+    let parseSub (t : String) : Option Model.Sub :=
+      match t.splitOn "/" with
+      | [a, b] =>
+        match a.toNat?, b.toNat? with
+        | some x, some y => some { str := (val.drop x).take (y - x), off := some (x, y) }
+        | _, _ => if a == "x" then some { str := [], off := none } else none
+      | _ => none
+    match ((asciiStr subs).splitOn "+").mapM parseSub, (asciiStr lno).toNat? with
+    | some ss, some l =>
+      let mh : Model.Match := { ty := .header, lno := l, part := 0, subs := ss, key := some key, val := some val }
+      toHex (Model.exprInspect widthEnv home confpath mh)
+    | _, _ => "BADOP"
+  | _ => "BADOP"
+
+/-- `hcond <names, newline separated> <pattern> <flags ascii: i or -> <message>`: the documented header condition
+(`Spec.headerCands`, `Spec.firstNonNomatch`) with the platform regex library under the driver's locale.
+NOTWF when the message is outside `Spec.read`; else `NOMATCH`, `ERROR`, or `MATCH <name> <decoded value> <so/eo+...>`. -/
+def handleSpecHcond (args : List Bytes) : String :=
+  match args with
+  | [names, pat, flags, m] =>
+    match Spec.read m with
+    | none => "NOTWF"
+    | some (fs, _) =>
+      let p : Model.Pat := { src := pat, icase := flags.contains 105 }
+      if !rxOkFFI p then "BADPATTERN" else
+      match Spec.firstNonNomatch (rxFFI p) (Spec.headerCands fs (names.splitOn 10)) with
+      | none => "NOMATCH"
+      | some (k, v) =>
+        match rxFFI p v with
+        | .ok groups => s!"MATCH {toHex k} {toHex v} " ++ String.intercalate "+" (groups.map fun g =>
+            match g with | none => "x/x" | some (a, b) => s!"{a}/{b}")
+        | _ => "ERROR"
+  | _ => "BADOP"
+
 def strptimeEnv (s : Bytes) : Option (Model.Tm × Bytes) :=
   Gen.dateFormats.findSome? fun f =>
     let r := strptimeFFI f.toUTF8 (ba s)
@@ -186,9 +255,22 @@ def timeFormatEnv (tz : Bytes) (t : Int) : Option Bytes :=
     let r := timefmtFFI f.toUTF8 (ba tz) (t + 4611686018427387904).toNat.toUInt64
     if (r[0]?).getD 0 == 1 then some ((r.toList.drop 1).map fun c => c.toNat.toUInt8) else none
 
+/-- The value of `exec(argv, -1)` for the programs the unit harness knows: `true`, `false`, and the injectable outcomes
+`vstatus:...` of harness/unit/h_expr.c, mapped by the transcription of `exec()`'s status handling (`Model.execValue`:
+/dev/null opened, the result of `fork`, the result of `waitpid` as a raw wait status); every other name is a program that
+does not exist (the child's `execvp` fails and it exits with 127). -/
 def commandOracle (argv : List Bytes) : Int :=
+  let exited (code : Nat) : Int := Model.execValue true (.ok 1) (.ok (code % 256 * 256))
+  let num (b : Bytes) : Nat := ((String.ofList (b.map fun c => Char.ofNat c.toNat)).toNat?).getD 0
   match argv with
-  | a :: _ => if a == ofString "true" then 0 else if a == ofString "false" then 1 else -1
+  | a :: _ =>
+    if a == ofString "true" then exited 0
+    else if a == ofString "false" then exited 1
+    else if (ofString "vstatus:exit:").isPrefixOf a then exited (num (a.drop 13))
+    else if (ofString "vstatus:signal:").isPrefixOf a then Model.execValue true (.ok 1) (.ok (num (a.drop 15) % 128))
+    else if a == ofString "vstatus:fork" then Model.execValue true (.err "EAGAIN") (.ok 0)
+    else if a == ofString "vstatus:waitpid" then Model.execValue true (.ok 1) (.err "ECHILD")
+    else exited Model.execvpFailedStatus      -- vstatus:errno:E and every unknown name: execvp fails in the child
   | [] => -1
 
 def subDump (s : Model.Sub) : String :=
@@ -205,23 +287,24 @@ def matchDump (m : Model.Match) : String :=
 def triName : Model.Tri → String
   | .match => "MATCH" | .nomatch => "NOMATCH" | .error => "ERROR"
 
-/-- The file-time oracle handed over by the harness in the place of a directory argument:
-`\x01T<atime> <mtime> <ctime>\x01<time_format atime>\x01<.. mtime>\x01<.. ctime>` (what `stat` said about the message file). -/
-def fileTimes (dirs : List Bytes) (f : Model.DateField) : Option (Int × Bytes) :=
+/-- The `stat` oracle handed over by the harness in the place of a directory argument:
+`\x01T<atime> <mtime> <ctime>\x01<time_format atime>\x01<.. mtime>\x01<.. ctime>` (what `stat` said about the message file).
+The model selects the field itself (`Model.eval`, the `date` case); `time_format` is served for the three instants reported. -/
+def statBlob (dirs : List Bytes) : Option (Model.FileTimes × List (Int × Bytes)) :=
   match dirs.find? (fun d => d.take 2 == [1, 84]) with
   | none => none
   | some d =>
     match (d.drop 2).splitOn 1 with
     | [nums, fa, fm, fc] =>
       match ((String.ofList (nums.map fun c => Char.ofNat c.toNat)).splitOn " ").map String.toInt? with
-      | [some a, some m, some c] =>
-        match f with
-        | .access => some (a, fa)
-        | .modified => some (m, fm)
-        | .created => some (c, fc)
-        | .header => none
+      | [some a, some m, some c] => some ({ atime := a, mtime := m, ctime := c }, [(a, fa), (m, fm), (c, fc)])
       | _ => none
     | _ => none
+
+def fileTimes (dirs : List Bytes) (_path : Bytes) : Option Model.FileTimes := (statBlob dirs).map (·.1)
+
+def timeFormats (dirs : List Bytes) (t : Int) : Option Bytes :=
+  (statBlob dirs).bind fun b => (b.2.find? (·.1 == t)).map (·.2)
 
 /-- `eval <ast> <message> <path> <dryrun:0|1> <now decimal as ascii> <existing dir>*` -/
 def handleEval (args : List Bytes) : String :=
@@ -238,7 +321,7 @@ def handleEval (args : List Bytes) : String :=
       | some mf =>
         let env : Model.Env := {
           rx := rxFFI, command := commandOracle, isDir := fun p => dirs.contains p || (ofString "/yes").isSuffixOf p, now := nowI,
-          strptime := strptimeEnv, zoneName := zoneEnv nowI, fileTime := fileTimes dirs,
+          strptime := strptimeEnv, zoneName := zoneEnv nowI, fileTime := fileTimes dirs, timeFormat := timeFormats dirs,
           dryrun := dry == ofString "1", path := path }
         let (tri, st) := Model.eval env msg e 0 msg { ml := [], flags := mf }
         let parts := (Model.getAttachments msg).getD []
@@ -253,7 +336,7 @@ def handleEval (args : List Bytes) : String :=
             -- harness layout: <tdir>/<maildir>/<subdir>/<name>, HOME = <tdir>, configuration = <tdir>/conf
             let comps := path.splitOn 47
             let tdir : Bytes := (List.intersperse [47] (comps.take (comps.length - 3))).flatten
-            let dryText := if env.dryrun then " " ++ toHex (Model.matchesInspect Model.widthC tdir (tdir ++ ofString "/conf") false true path ml2) else ""
+            let dryText := if env.dryrun then " " ++ toHex (Model.matchesInspect widthEnv tdir (tdir ++ ofString "/conf") false true path ml2) else ""
             s!"MATCH {ml1} {fl} {String.intercalate ";" (ml2.map matchDump)} {dumpTable (msgs2 0)}{dryText}"
         | t => s!"{triName t} {ml1} {fl}"
   | _ => "BADOP"
@@ -303,6 +386,38 @@ def handleSpecEval (args : List Bytes) : String :=
           let o := Spec.evalBlock v aerr rules
           let (np, lp) := Spec.planOf (o.actions.filterMap Spec.actKey)
           s!"{triName o.res} {if o.crosses then "CROSSES" else "LOCAL"} [{String.intercalate "," (np.map keyStr)}] {match lp with | none => "-" | some k => keyStr k}"
+  | _ => "BADOP"
+
+/-- Specification side of `eval` WITH attachment conditions and attachment blocks: the documented rule
+semantics `Spec.evalBlockA` (Spec/RulesAtt.lean) in exactly the instance the theorems `C03_eval_refines_spec_att`
+and `C04_eval_error_propagates` are about (`Proofs.partCtx`: the parts `message_get_attachments` returns and
+every matcher evaluated on its own; `Proofs.actionErr`).  Answer:
+`<MATCH|NOMATCH|ERROR> <CROSSES|LOCAL> <LEAKS|TIGHT> <DOM|NODOM> [type:line:part,...]` - the result, the two
+recorded deviation classes (F11, F24), whether the tree is in `Proofs.InDomainA`, and on a match the actions in
+order with the index of the part each was collected on.  NOTWF: not a tree the grammar builds. -/
+def handleSpecEvalAtt (args : List Bytes) : String :=
+  match args with
+  | ast :: file :: path :: _dry :: now :: _ =>
+    match Driver.parseExpr (String.ofList (ast.map fun c => Char.ofNat c.toNat)) with
+    | none => "BADAST"
+    | some e =>
+      match Spec.parseBlockA e with
+      | none => "NOTWF"
+      | some rules =>
+        let nowI : Int := ((String.ofList (now.map fun c => Char.ofNat c.toNat)).toInt?).getD 0
+        let msg := Model.parseMessage file
+        let name := (path.reverse.takeWhile (· != 47)).reverse
+        match Model.flagsParse name with
+        | none => "NOTWF"
+        | some mf =>
+          let env : Model.Env := {
+            rx := rxFFI, command := commandOracle, isDir := fun p => (ofString "/yes").isSuffixOf p, now := nowI,
+            strptime := strptimeEnv, zoneName := zoneEnv nowI, fileTime := fun _ => none,
+            dryrun := false, path := path }
+          let o := Spec.evalBlockA (Proofs.partCtx env msg mf) Proofs.actionErr msg rules
+          let keys := o.actions.filterMap Spec.actKeyP
+          let ks := keys.map fun k => s!"{k.1.name}:{k.2.1}:{k.2.2}"
+          s!"{triName o.res} {if o.crosses then "CROSSES" else "LOCAL"} {if o.leaks then "LEAKS" else "TIGHT"} {if Proofs.InDomainA env e then "DOM" else "NODOM"} [{String.intercalate "," ks}]"
   | _ => "BADOP"
 
 /-- `interp <template> <path or ~ for no macro table> (<group>* 7c)*`: model and specification side by side. -/
@@ -370,8 +485,9 @@ def handleSmall (side op : String) (args : List Bytes) : Option String :=
   | "M", "msgflags", [a, b, u, l] => some (optHex (Model.msgflags (subdirOf a) (subdirOf b) ⟨asNat u, asNat l⟩))
   | "S", "msgflags", [a, b, u, l] =>
     some (optHex (some (Spec.flagSuffix (Spec.adjustSeen (a == [110]) (b == [110]) (Proofs.lettersOf ⟨asNat u, asNat l⟩)))))
-  | "M", "pslice", [path, siz, beg, e] => some (optHex (Model.pathslice path (asNat siz) (asInt beg) (asInt e)))
-  | "M", "pjoin", [siz, d, f] => some (optHex (Model.pathjoin (asNat siz) d f))
+  -- the limit-parametrised setters of Model/Limits.lean at the buffer size of the request (C18: `pathsliceL path (.fin n) = pathslice path n`)
+  | "M", "pslice", [path, siz, beg, e] => some (optHex (Model.pathsliceL path (.fin (asNat siz)) (asInt beg) (asInt e)))
+  | "M", "pjoin", [siz, d, f] => some (optHex (Model.pathjoinL (.fin (asNat siz)) d f))
   -- dest <root> <sub> <name> <action>*: an action is `m<maildir>`, `f<subdir>` or `F<letters>`
   | "S", "dest", root :: sub :: _ :: acts =>
     (acts.mapM pathAction).map fun as => s!"{if Spec.destOK as then 1 else 0} {toHex (Spec.destPath (root, sub) as)}"
@@ -568,6 +684,17 @@ def handleMsg (side op : String) (args : List Bytes) : Option String :=
   | "M", "unfold", [v] => some (toHex (Model.unfoldHeader v))
   | "M", "ctype", [] => some ctypeTable
   | "M", "eval", as => some (handleEval as)
+  | "M", "inspect", as => some (handleInspect as)
+  | "M", "regex", [pat, flags, subject] =>
+    -- the platform regex library under the driver's locale: `regex <pattern> <flags ascii: i or -> <subject>`
+    let p : Model.Pat := { src := pat, icase := flags.contains 105 }
+    some (if !rxOkFFI p then "BADPATTERN" else
+      match rxFFI p subject with
+      | .ok groups => "MATCH " ++ String.intercalate "+" (groups.map fun g =>
+          match g with | none => "x/x" | some (a, b) => s!"{a}/{b}")
+      | .nomatch => "NOMATCH"
+      | .error => "ERROR")
+  | "M", "locale", [x] => some (let r := localeInfoFFI x.length.toUInt32; s!"{r >>> 8} {r &&& 255}")
   | "M", "conform", as => some (handleConform as)
   | "M", "conformtext", as => some (handleConformText as)
   | "M", "lex", as => some (handleLex as)
@@ -640,6 +767,77 @@ def handleL0 (fn : String) (args : List Bytes) : L0.M String :=
     | .inr true => pure "INVALID"
   | _, _ => pure "BADOP"
 
+/-! ### libks buffer: `lbuf <start> (<op> <piece>)* [<final>]` (harness/unit/h_buffer.c) -/
+
+/-- The operations of an `lbuf` request on the index-level buffer model; `rcs` in reverse order. -/
+def lbufOps (bf : L0.LBuf) (rcs : List Nat) : List Bytes → L0.M (L0.LBuf × List Nat × Option Bytes)
+  | op :: piece :: rest =>
+    match op with
+    | [115] => do let (rc, bf') ← bf.puts piece; lbufOps bf' (rc :: rcs) rest                       -- s
+    | [99] => do let (rc, bf') ← bf.putc (piece.headD 0); lbufOps bf' (rc :: rcs) rest             -- c
+    | [102] => do let (rc, bf') ← bf.vprintf (cstr piece); lbufOps bf' (rc :: rcs) rest            -- f: "%s" stops at a NUL
+    | [114] => lbufOps bf.reset (0 :: rcs) rest                                                   -- r
+    | [112] => lbufOps (bf.pop (asNat piece)).2 (0 :: rcs) rest                                   -- p
+    | _ => pure (bf, rcs, none)
+  | [fin] => pure (bf, rcs, some fin)
+  | [] => pure (bf, rcs, none)
+
+/-- The C string at `&b[i]`, read byte by byte through the checked accessor (linear in its length). -/
+def l0CStr (b : L0.Buf) (i : Nat) (acc : Bytes) : L0.M Bytes :=
+  match h : b.get? i with
+  | .error e => .error e
+  | .ok c => if c == 0 then .ok acc.reverse else l0CStr b (i + 1) (c :: acc)
+termination_by b.size - i
+decreasing_by have := L0.Buf.lt_of_get? h; omega
+
+def lbufModel (args : List Bytes) : L0.M String := do
+  let (bf0, rest) ← match args with
+    | [82] :: data :: rest => do pure (← L0.LBuf.readFd data [], rest)
+    | n :: rest => pure (L0.LBuf.alloc (asNat n), rest)
+    | [] => pure (L0.LBuf.empty, [])
+  let (bf, rcs, fin) ← lbufOps bf0 [] rest
+  let rcStr := if rcs.isEmpty then "-" else String.join (rcs.reverse.map toString)
+  let head := s!"R {rcStr} {bf.getLen} {bf.getSize} {toHex bf.contents}"
+  match fin with
+  | some [84] => do                                              -- T: buffer_str
+    let (b, _) ← bf.str
+    pure (head ++ " " ++ toHex (← l0CStr b 0 []))
+  | some [76] => do                                              -- L: buffer_putc('\0'), buffer_release
+    let (_, bf') ← bf.putc 0
+    pure (head ++ " " ++ toHex (← l0CStr bf'.release.1 0 []))
+  | _ => pure head
+
+/-- What the list-level models assume of the buffer: every operation succeeds, the bytes in use are the pieces in
+order (`reset`/`pop` taken into account), the capacity is whatever; the string handed out is those bytes up to
+their first NUL.  Answers `R <rcs> <len> * <hex> [<hex>]`. -/
+def lbufSpec (args : List Bytes) : String :=
+  let (start, rest) : Bytes × List Bytes := match args with
+    | [82] :: data :: rest => (data, rest)
+    | _ :: rest => ([], rest)
+    | [] => ([], [])
+  let rec go (acc : Bytes) (n : Nat) : List Bytes → Bytes × Nat × Option Bytes
+    | op :: piece :: rest =>
+      match op with
+      | [115] => go (acc ++ piece) (n + 1) rest
+      | [99] => go (acc ++ [piece.headD 0]) (n + 1) rest
+      | [102] => go (acc ++ cstr piece) (n + 1) rest
+      | [114] => go [] (n + 1) rest
+      | [112] => go (acc.take (acc.length - asNat piece)) (n + 1) rest
+      | _ => (acc, n, none)
+    | [fin] => (acc, n, some fin)
+    | [] => (acc, n, none)
+  let (acc, n, fin) := go start 0 rest
+  let rcStr := if n == 0 then "-" else String.join ((List.replicate n 0).map toString)
+  let head := s!"R {rcStr} {acc.length} * {toHex acc}"
+  match fin with
+  | some _ => head ++ " " ++ toHex (cstr acc)
+  | none => head
+
+def faultStr : L0.Fault → String
+  | .oob i => s!"FAULT oob {i}"
+  | .uaf => "FAULT uaf"
+  | .nullDeref => "FAULT null"
+
 def l0Answer (fn : String) (args : List Bytes) : String :=
   match handleL0 fn args with
   | .ok "BADOP" => "BADOP"
@@ -652,6 +850,17 @@ def handle (side op : String) (args : List String) : String :=
   match side, op, args.mapM fromHex with
   | _, _, none => "BADHEX"
   | "l0", fn, some as => l0Answer fn as
+  | "M", "lbuf", some as => (match lbufModel as with | .ok r => r | .error e => faultStr e)
+  | "M", "dconf", some [home] =>
+    -- mdsort.c defaultconf(home): the path handed to config_parse, or exit status 1
+    (match Model.defaultconf Model.PATH_MAX home with | some p => "OK " ++ toHex p | none => "EXIT 1")
+  | "M", "renv", some [home, tmpdir] =>
+    -- mdsort.c readenv with HOME / TMPDIR as given (~ = unset; the password entry is not consulted by the harness requests)
+    let opt (b : Bytes) : Option Bytes := if b == [126] then none else some b
+    (match Model.readenv { home := opt home, pwdir := none, tmpdir := opt tmpdir, tz := none, pathTmp := "/tmp/".toUTF8.toList } with
+     | .ok (h, t, _) => s!"OK {toHex h} {toHex t}"
+     | .error _ => "EXIT 1")
+  | "S", "lbuf", some as => lbufSpec as
   | "M", "isbackref", some [s] =>
     match Model.isBackref s with
     | .inl (n, br) => s!"BR {n} {br.mi} {br.si}"
@@ -684,6 +893,8 @@ def handle (side op : String) (args : List String) : String :=
   | "M", "r2047", some [s] => toHex (Model.rfc2047Decode s)
   | "S", "r2047", some [s] => toHex (cstr (Spec.rfc2047 s))
   | "S", "eval", some as => handleSpecEval as
+  | "S", "hcond", some as => handleSpecHcond as
+  | "S", "evalatt", some as => handleSpecEvalAtt as
   | sd, "interp", some as => handleInterp sd as
   | sd, o, some as =>
     if ["tzoff", "tparse", "flagsp", "flagss", "msgflags", "pslice", "pjoin", "dest"].contains o then
